@@ -584,7 +584,7 @@ func BigAuto(t *rapid.T) *Spec {
 func ManySyms(t *rapid.T) *Spec {
 	s := base()
 	nt := rapid.IntRange(45, 60).Draw(t, "nT")
-	nn := rapid.IntRange(8, 20).Draw(t, "nN")
+	nn := rapid.IntRange(8, 32).Draw(t, "nN")
 	for i := 0; i < nt; i++ {
 		s.Terms = append(s.Terms, Term{Name: fmt.Sprintf("K%02d", i), Decl: "token"})
 	}
@@ -604,8 +604,23 @@ func ManySyms(t *rapid.T) *Spec {
 			s.Rules = append(s.Rules, Rule{LHS: i, RHS: rhs, Prec: -1})
 		}
 	}
-	// top : K_i body_j  for every keyword, and top : b_j K_i for some
+	// some bodies continue another body: b_j : b_k K_m (the same item then
+	// occurs in many states, with different neighbours)
+	for i := 1; i < nn; i++ {
+		if nn > 2 && rapid.IntRange(0, 2).Draw(t, "chain") == 0 {
+			k := rapid.IntRange(1, nn-2).Draw(t, "chainto")
+			if k >= i {
+				k++
+			}
+			s.Rules = append(s.Rules, Rule{LHS: i, RHS: []int{nt + k, rapid.IntRange(0, nt-1).Draw(t, "chaint")}, Prec: -1})
+		}
+	}
+	// top : K_i body_j  for (nearly) every keyword, and top : b_j K_i for some
+	skip := rapid.IntRange(0, 4).Draw(t, "skip")
 	for i := 0; i < nt; i++ {
+		if skip > 0 && i > 0 && rapid.IntRange(0, 4).Draw(t, "skipkw") < skip-1 {
+			continue
+		}
 		b := nt + 1 + rapid.IntRange(0, nn-2).Draw(t, "body")
 		s.Rules = append(s.Rules, Rule{LHS: 0, RHS: []int{i, b}, Prec: -1})
 	}
@@ -625,8 +640,12 @@ func HugeRule(t *rapid.T) *Spec {
 	k := rapid.IntRange(260, 400).Draw(t, "hugelen")
 	rhs := make([]int, k)
 	nt := len(s.Terms)
+	// (at most 8 nonterminal occurrences: with an ambiguous base grammar
+	// yaccgo's lookahead computation takes about a minute for 30 of them)
+	nts := 0
 	for j := range rhs {
-		if rapid.IntRange(0, 40).Draw(t, "hnt") == 0 {
+		if nts < 8 && rapid.IntRange(0, 40).Draw(t, "hnt") == 0 {
+			nts++
 			rhs[j] = nt + rapid.IntRange(0, len(s.NTs)-1).Draw(t, "hn")
 		} else {
 			rhs[j] = rapid.IntRange(0, nt-1).Draw(t, "ht")
